@@ -273,6 +273,9 @@ func (r *rewriter) rewriteFile(f *ast.File) {
 				case "Shuffle":
 					n.Fun = &ast.SelectorExpr{X: ast.NewIdent("vsched"), Sel: ast.NewIdent("RandShuffle")}
 					r.used = true
+				case "Perm":
+					n.Fun = &ast.SelectorExpr{X: ast.NewIdent("vsched"), Sel: ast.NewIdent("RandPerm")}
+					r.used = true
 				}
 			}
 		}
